@@ -35,6 +35,10 @@ def member_specs(draw, dims=(2, 3), types=("SEG2", "SEG3", "SEG4", "SEG5"), incl
             d = [2.0, 0.0, 0.0]
     else:
         d = [draw(st.integers(2, 6)) / 2.0, 0.0, 0.0]
+    if incline and draw(st.integers(0, 5)) == 0:
+        # a member lying exactly on the global x axis (every node has y = z = 0), running towards +x or -x
+        p1 = [p1[0], 0.0, 0.0]
+        d = [draw(st.sampled_from([-3.0, -1.5, 2.0])), 0.0, 0.0]
     ne = draw(st.integers(2, 4))
     b = draw(st.integers(2, 6)) / 10.0
     h = draw(st.integers(2, 6)) / 10.0
